@@ -78,7 +78,9 @@ class Replace(Change):
 
     def apply(self, recorder: ChangeRecorder):
         change = recorder.new_change()
-        range = self.file.asttokens().get_text_positions(self.node, False)
+        # positions of the syntax tree: the token positions of a multi-line string
+        # with non-ASCII characters are wrong on some Python versions
+        range = self.file.asttext().get_text_positions(self.node, False)
         change.replace(range, self.new_code, filename=self.filename)
 
 
